@@ -91,7 +91,14 @@ def H_fault_file(ctx, cfg):
         "fetch_file": lambda: acc.fetch_file("info"),
         "file_exists": lambda: acc.file_exists("info"),
     }
-    op = ops[cfg["op"]]
+    swallowed = []
+
+    def op():
+        # the operation, followed by what the garbage collector does to file objects it left open (their close is
+        # deferred and a failure there is silently dropped)
+        r_ = ops[cfg["op"]]()
+        swallowed[:] = env.fs.collect_unclosed()
+        return r_
     # count the calls of a clean run on a copy of the state
     snap_files, snap_dirs = dict(env.fs.files), set(env.fs.dirs)
     c0 = env.fs.calls
@@ -132,6 +139,10 @@ def H_fault_file(ctx, cfg):
         site = _site()
         # returned normally although a call failed: only acceptable when the failing call was a probe whose error
         # pathlib itself treats as "no such file" and the result is still right
+        if swallowed and cfg["op"].startswith("store"):
+            ctx.fail("store-returned-normally-although-a-call-failed",
+                     detail=f"{cfg['op']}: a file was left open; its deferred close failed with {errno.errorcode[e]} and the error was dropped ({swallowed[0][0]})")
+            return
         if cfg["op"] in ("fetch_chunk", "fetch_file"):
             want = p0 if cfg["op"] == "fetch_chunk" else SBytes(b'{"x": 1}')
             g = r if isinstance(r, SBytes) else SBytes(r)
@@ -400,12 +411,34 @@ def replay(cfg, cex):
                 counters[kind] = i + 1
                 return kind == opname and i == occ
 
+            fired = []
+
             def boom():
+                fired.append(1)
                 raise OSError(e, os.strerror(e))
 
             class FileProxy:
                 def __init__(self, f, prefix):
                     self._f, self._p = f, prefix
+                    self._closed = False
+
+                def __del__(self):
+                    # a file object dropped without close(): closed by the garbage collector, errors swallowed, and
+                    # whatever sat in its buffer is lost when that close fails
+                    if not self._closed:
+                        try:
+                            self.close()
+                        except OSError:
+                            try:
+                                os.truncate(self._f.name, 0)
+                            except Exception:
+                                pass
+
+                def flush(self):
+                    return self._f.flush()
+
+                def tell(self):
+                    return self._f.tell()
 
                 def write(self, b):
                     if hit(self._p + "write"):
@@ -418,6 +451,7 @@ def replay(cfg, cex):
                     return self._f.read(*a)
 
                 def close(self):
+                    self._closed = True
                     self._f.close()
                     if hit(self._p + "close"):
                         boom()
@@ -465,6 +499,8 @@ def replay(cfg, cex):
             try:
                 try:
                     r = ops[cfg["op"]]()
+                    import gc
+                    gc.collect()
                 except (acc_mod.DataAccessError, OSError):
                     r = "raised"
                 except Exception as exc:
